@@ -414,6 +414,10 @@ class Gen:
             if (tot + 1) ** 2 * others > self.maxdim:
                 return None
             spec["eta"] = float(self.ch([math.pi / 4, math.pi / 4, self.angle() / 2]))
+            if self.p(self.opts.get("weak_bs", 0.0)):
+                # a weak coupling: the top occupied level of a mode then lives only in a branch of weight 1e-9..1e-5
+                # (well above the library's 1e-12 population threshold, well below anything a loose isclose() sees)
+                spec["eta"] = float(10 ** r.uniform(-4.5, -2.5)) * (1 if self.p(0.5) else -1)
         else:
             k = int(r.integers(2, min(3, len(ns)) + 1))
             tg = [str(x) for x in r.choice(ns, size=k, replace=False)]
@@ -898,6 +902,34 @@ class Gen:
             self.focus = {e + ".f", e + ".p"}
             self.sticky_focus = 3
             return pre
+        if self.p(0.3):
+            # variant: the envelope stays on its own - combined, expanded, operated on (with automatic contraction on
+            # the matrix path brings it back to a vector, with it off it stays a matrix), then one part is measured
+            # or traced separately: every inline level change on the way is visible in the survivor's state
+            pre = [{"k": "combine", "via": "env", "env": e, "targets": []}]
+            if self.p(0.6):
+                pre.append({"k": "expand", "via": "env", "env": e, "targets": []})
+                if self.p(0.5):
+                    pre.append({"k": "expand", "via": "env", "env": e, "targets": []})
+            for _ in range(int(self.rng.integers(0, 3))):
+                t = e + (".f" if self.p(0.5) else ".p")
+                op = {"fam": "fock", "type": "PhaseShift", "phi": self.angle()} if t.endswith(".f") else self.pol_op()
+                op.pop("nonunitary", None)
+                if op.get("type") == "Custom" and t.endswith(".p"):
+                    op = {"fam": "pol", "type": "RY", "theta": self.angle()}
+                st = {"k": "apply", "op": op, "targets": [t], "via": str(self.ch(["env", "state"]))}
+                if st["via"] == "env":
+                    st["env"] = e
+                pre.append(st)
+            part = e + (".f" if self.p(0.5) else ".p")
+            x = self.rng.random()
+            if x < 0.6:
+                pre.append({"k": "measure", "via": "env", "env": e, "targets": [part], "sep": True, "destr": bool(self.p(0.5))})
+            elif x < 0.8:
+                pre.append({"k": "trace_out", "via": "env", "env": e, "targets": [part]})
+            self.focus = {e + ".f", e + ".p"}
+            self.sticky_focus = 3
+            return pre
         pre = [{"k": "composite", "name": "CE0", "args": [str(u) for u in units]},
                {"k": "combine", "via": "env", "env": e, "targets": []}]
         if self.p(0.5):
@@ -917,6 +949,70 @@ class Gen:
         if pre[-1]["via"] == "state":
             pre[-1].pop("ce")
         self.focus = {e + ".f", e + ".p"}
+        self.sticky_focus = 4
+        return pre
+
+    def big_space_prefix(self, v):
+        """scripted prefix: three to five subsystems are joined into ONE composite product space by a single combine in
+        random order (optionally reordered afterwards); the following steps keep addressing its members - with
+        multi-target requests naming them in an order unrelated to the storage order."""
+        w = v["w"]
+        units = list(w.envs) + [n for n in w.subs if w.kind(n) == "X"]
+        members = [n for n in v["live"] if w.env_of(n) is not None or w.kind(n) == "X"]
+        if len(members) < 3:
+            return []
+        k = int(self.rng.integers(3, min(5, len(members)) + 1))
+        tg = [str(x) for x in self.rng.choice(members, size=k, replace=False)]
+        dim = 1
+        for t in tg:
+            d = v["dims"].get(t)
+            if not d or d < 0:
+                nm, _ = self.support(v, t)
+                d = (nm or 0) + 4
+            dim *= d
+        if dim > self.maxdim // 2:
+            return []
+        pre = [{"k": "composite", "name": "CE0", "args": [str(u) for u in units]},
+               {"k": "combine", "via": "ce", "ce": "CE0", "targets": tg}]
+        if self.p(0.4):
+            sub = [str(x) for x in self.rng.choice(tg, size=int(self.rng.integers(2, k + 1)), replace=False)]
+            pre.append({"k": "reorder", "via": "ce", "ce": "CE0", "targets": sub})
+        if self.profile in ("measure",) or self.p(0.25):
+            m = int(self.rng.integers(2, min(3, k) + 1))
+            mt = [str(x) for x in self.rng.choice(tg, size=m, replace=False)]
+            st = {"k": "measure", "via": "ce", "ce": "CE0", "targets": mt}
+            if self.p(0.7):
+                st["destr"] = bool(self.p(0.5))
+            if self.p(0.6):
+                st["sep"] = bool(self.p(0.7))
+            pre.append(st)
+        self.focus = set(tg)
+        self.sticky_focus = 3
+        return pre
+
+    def weak_bs_prefix(self, v):
+        """scripted prefix: two modes are coupled by a very weak beam splitter, so that the top occupied level of at
+        least one of them lives only in a branch of weight 1e-9..1e-5; the following steps (resizes across that level,
+        phase shifters, further splitters) keep addressing the two modes."""
+        w = v["w"]
+        envs = [e for e in w.envs if e + ".f" in v["live"]]
+        if len(envs) < 2:
+            return []
+        e1, e2 = [str(x) for x in self.rng.choice(envs, size=2, replace=False)]
+        tot = 0
+        for f in (e1 + ".f", e2 + ".f"):
+            nm, _ = self.support(v, f)
+            if nm is None:
+                return []
+            tot += nm
+        if tot == 0 or (tot + 1) ** 2 * 4 > self.maxdim:
+            return []
+        units = list(w.envs) + [n for n in w.subs if w.kind(n) == "X"]
+        eta = float(10 ** self.rng.uniform(-4.5, -2.5)) * (1 if self.p(0.5) else -1)
+        pre = [{"k": "composite", "name": "CE0", "args": [str(u) for u in units]},
+               {"k": "apply", "op": {"fam": "comp", "type": "NonPolarizingBeamSplitter", "eta": eta},
+                "targets": [e1 + ".f", e2 + ".f"], "via": "ce", "ce": "CE0"}]
+        self.focus = {e1 + ".f", e2 + ".f"}
         self.sticky_focus = 4
         return pre
 
@@ -981,6 +1077,10 @@ class Gen:
                            {"k": "composite", "name": f"CE{n + 2}", "args": [b, f"CE{n + 1}"]}]
         elif not runner.records and self.opts.get("lifecycle") and self.p(self.opts["lifecycle"]):
             self.prefix = self.lifecycle_prefix(v)
+        elif not runner.records and self.opts.get("weak_prefix") and self.p(self.opts["weak_prefix"]):
+            self.prefix = self.weak_bs_prefix(v)
+        elif not runner.records and self.p(self.opts.get("big_space", 0.12)):
+            self.prefix = self.big_space_prefix(v)
         if getattr(self, "prefix", None):
             return self.prefix.pop(0)
         if getattr(self, "pending_refusal", None) is not None:
